@@ -35,6 +35,7 @@ def check_value(f, use_e):
     tol = 1.0000001e-6 if fixed else 5.0000001e-6 * abs(f)
     if abs(v - f) > tol:
         return {'id': 'format_float-loses-precision' + (':fixed-point' if fixed else ''), 'value': f, 'use_e': use_e,
+                'input': {'value': f, 'use_e': use_e},
                 'observed': s, 'error': abs(v - f), 'allowed': tol}
     if (v < 0) != (f < 0) and v != 0:
         return {'id': 'format_float-wrong-sign', 'value': f, 'observed': s}
@@ -102,6 +103,15 @@ def report_readback(seed):
 
 
 def main_():
+    if sys.argv[1] == 'replay':
+        spec = json.loads(sys.argv[2])
+        if isinstance(spec, dict) and 'value' in spec:
+            r = check_value(spec['value'], spec.get('use_e', 0))
+            v = [r] if r else []
+        else:
+            v = report_readback(0)
+        print(json.dumps({'cases': 1, 'violations': v}, default=str))
+        return
     seed, count = int(sys.argv[2]), int(sys.argv[3])
     rng = random.Random(seed)
     out = {'cases': 0, 'nontrivial': 0, 'violations': [], 'samples': []}
